@@ -1,7 +1,10 @@
 """C08 — position maps and mappings obey the documented mapping algebra.
 
 Tie: exact correspondence of StepMap.map_result / for_each / touches / recover / invert and of
-Mapping.map / map_result / slice / append_* / invert with lean/PM/Map.lean.
+Mapping.map / map_result / slice / append_* / invert with lean/PM/Map.lean; builder sequences (append_map with a mirror
+argument, set_mirror, append_mapping, append_mapping_inverted, invert, one- and two-bound slices, bounds past the last map)
+followed by map / map_result at every position with both association sides, get_mirror of every index and the
+"no index registered twice" predicate (lean/PM/MapTable.lean) — `mappingAlg`, exact.
 Search: the documented rule (written here independently, in prefix-sum form) against the real code.
 """
 import itertools
@@ -480,6 +483,235 @@ def check_mappings(ctx, rng, reqs, metas, n_cases):
             metas.append(("mappingOps", maps, invs, got))
 
 
+# --------------------------------------------------------------------------------------------
+# the mapping algebra: builder sequences (append_map with mirrors, set_mirror, append_mapping, append_mapping_inverted,
+# invert, slice with one or two bounds), then map / map_result at every position with both association sides —
+# exact against the model (`mappingAlg`), and the composition laws of Props/C08.lean as oracles on the real code
+
+def _smj(x):
+    return [list(x.ranges), x.inverted]
+
+
+def _mapping_json(m):
+    return {"maps": [_smj(x) for x in m.maps], "mirror": list(m.mirror or []), "from": m.from_, "to": m.to}
+
+
+def _mapping_from_json(j):
+    return Mapping([StepMap(list(r), inv) for r, inv in j["maps"]], list(j["mirror"]) if j.get("mirror") else None,
+                   j.get("from", 0), j.get("to"))
+
+
+def _functional(m):
+    mir = list(m.mirror or [])
+    return len(mir) % 2 == 0 and len(set(mir)) == len(mir) and all(0 <= x < len(m.maps) for x in mir)
+
+
+def apply_ops(ops):
+    m = Mapping()
+    for o in ops:
+        k = o["k"]
+        if k == "appendMap":
+            m.append_map(StepMap(list(o["m"][0]), o["m"][1]), o.get("mirrors"))
+        elif k == "setMirror":
+            m.set_mirror(o["n"], o["m"])
+        elif k == "appendMapping":
+            m.append_mapping(_mapping_from_json(o["mapping"]))
+        elif k == "appendMappingInverted":
+            m.append_mapping_inverted(_mapping_from_json(o["mapping"]))
+        elif k == "invert":
+            m = m.invert()
+        elif k == "slice":
+            m = m.slice(o["from"], o.get("to"))
+        else:
+            raise AssertionError(k)
+    return m
+
+
+def _observe(m, lo, n):
+    """[[map, [pos, del_info]] ...] per association side; None where the code raises IndexError"""
+    def one(fn):
+        st, v = outcome(fn)
+        if st == "ok":
+            return v
+        if st == "internal" and str(v).startswith("IndexError"):
+            return None
+        return "raised " + str(v)
+    out = []
+    for assoc in (-1, 1):
+        row = []
+        for k in range(n):
+            p = lo + k
+
+            def mr():
+                r = m.map_result(p, assoc)
+                return [r.pos, r.del_info]
+            row.append([one(lambda: m.map(p, assoc)), one(mr)])
+        out.append(row)
+    return out
+
+
+def _then(first, second, p, assoc):
+    """`first`, then `second` on the position it produced, deletion flags OR-ed (None = IndexError)"""
+    try:
+        r1 = first.map_result(p, assoc)
+        r2 = second.map_result(r1.pos, assoc)
+    except IndexError:
+        return None
+    return [r2.pos, r1.del_info | r2.del_info]
+
+
+def _rand_other(rng):
+    """a mapping as the builders of the library produce it (functional mirror table), as json"""
+    shape = rng.choice(["plain", "palindrome", "rebase", "nested"])
+    if shape == "plain":
+        m = Mapping([StepMap(random_map(rng, 2), rng.random() < 0.25) for _ in range(rng.randint(0, 3))])
+    elif shape == "palindrome":
+        m = build_palindrome([random_map(rng, 2, strict=rng.random() < 0.8) for _ in range(rng.randint(1, 2))])
+    elif shape == "rebase":
+        chain = [random_map(rng, 2, strict=True) for _ in range(rng.randint(1, 2))]
+        m = Mapping()
+        ka = len(chain)
+        for i in range(ka - 1, -1, -1):
+            m.append_map(StepMap(list(chain[i])).invert())
+        for _ in range(rng.randint(0, 2)):
+            m.append_map(StepMap(random_map(rng, 2)))
+        for i in range(ka):
+            m.append_map(StepMap(list(chain[i])), ka - 1 - i)
+    else:
+        m = build_palindrome([random_map(rng, 2, strict=True)])
+        m.append_map(StepMap(random_map(rng, 2)))
+        m.append_mapping(build_palindrome([random_map(rng, 2, strict=True)]))
+    j = _mapping_json(m)
+    if rng.random() < 0.3 and m.maps:
+        # the bounds of the appended mapping (append_* ignore them)
+        a, b = sorted((rng.randint(0, len(m.maps)), rng.randint(0, len(m.maps))))
+        j["from"], j["to"] = a, b
+    return shape, j
+
+
+def check_algebra(ctx, rng, reqs, metas, n_cases):
+    for _ in range(n_cases):
+        wild = rng.random() < 0.25
+        ops = []
+        n_maps = 0
+        free = []                       # indices without a partner yet
+        for _k in range(rng.randint(0, 3)):
+            sm = [random_map(rng, 2, strict=rng.random() < 0.6), rng.random() < 0.25]
+            mirrors = None
+            if wild and n_maps and rng.random() < 0.5:
+                mirrors = rng.randint(0, n_maps)            # any index, the new map itself included: double registrations
+            elif free and rng.random() < 0.4:
+                mirrors = free.pop(rng.randrange(len(free)))
+                # a mirror of an earlier map: make it that map's inverse half of the time
+                if rng.random() < 0.5:
+                    prev = [o for o in ops if o["k"] == "appendMap"][mirrors]["m"]
+                    sm = [list(prev[0]), not prev[1]]
+            ops.append({"k": "appendMap", "m": sm, "mirrors": mirrors})
+            if mirrors is None:
+                free.append(n_maps)
+            n_maps += 1
+        if wild and n_maps and rng.random() < 0.5:
+            # any two existing maps (entries that name no map are outside the model: `append_mapping_inverted` turns them
+            # into negative table entries, the model's table is over the naturals)
+            ops.append({"k": "setMirror", "n": rng.randint(0, n_maps - 1), "m": rng.randint(0, n_maps - 1)})
+        if rng.random() < 0.3:
+            # `from` may lie one past the receiver's last map: an append then starts the walk inside the appended part
+            ops.append({"k": "slice", "from": rng.randint(0, n_maps + (1 if rng.random() < 0.3 else 0)),
+                        "to": None if rng.random() < 0.5 else rng.randint(0, n_maps + 1)})
+        shape, other = _rand_other(rng)
+        final = rng.choice(["appendMapping", "appendMappingInverted", "appendMapping", "appendMappingInverted",
+                            "invert", "slice", "appendMap", "appendThenSlice", "invertTwice"])
+        if final in ("appendMapping", "appendMappingInverted"):
+            ops.append({"k": final, "mapping": other})
+        elif final == "invert":
+            ops.append({"k": "appendMapping", "mapping": other})
+            ops.append({"k": "invert"})
+        elif final == "invertTwice":
+            ops.append({"k": "appendMapping", "mapping": other})
+            ops.append({"k": "invert"})
+            ops.append({"k": "invert"})
+        elif final == "appendMap":
+            ops.append({"k": "appendMap", "m": [random_map(rng, 2), rng.random() < 0.25], "mirrors": None})
+        else:
+            ops.append({"k": "appendMapping", "mapping": other})
+            tot = n_maps + len(other["maps"])
+            beyond = 1 if rng.random() < 0.25 else 0        # bounds one past the last map: IndexError iff the loop gets there
+            a, b = sorted((rng.randint(0, tot + beyond), rng.randint(0, tot + beyond)))
+            ops.append({"k": "slice", "from": a, "to": None if (final == "slice" and rng.random() < 0.3) else b})
+            if ops[-1]["to"] is not None and b > tot:
+                ctx.count("algebra_slice_beyond_end" + (":empty" if a == b else ""))
+        st, m = outcome(lambda: apply_ops(ops))
+        ctx.case(["algebra", ops], sample={"op": "Mapping builder sequence", "ops": [o["k"] for o in ops]})
+        ctx.count("algebra_cases")
+        ctx.count("algebra_final:" + final)
+        if wild:
+            ctx.count("algebra_wild")
+        if st != "ok":
+            ctx.count("algebra_build_raises")
+            if not wild:
+                ctx.violation("algebra-raises", f"a builder sequence over functional tables raised {m}", {"ops": ops})
+            continue
+        first = m.maps[0] if m.maps else None
+        n = min(14, (span(list(first.ranges), first.inverted) + 2) if first is not None else 4)
+        obs = _observe(m, 0, n)
+        functional = _functional(m)
+        ctx.count("algebra_functional" if functional else "algebra_double_registered")
+        if m.mirror:
+            ctx.count("algebra_with_mirrors")
+        mirrors = []
+        for i in range(len(m.maps)):
+            sg, g = outcome(lambda: m.get_mirror(i))
+            mirrors.append(g if sg == "ok" else "raised")
+        ctx.count("algebra_map_calls", 4 * n)
+        # --- oracles on the real code: the theorems of Props/C08.lean
+        if not wild:
+            if not functional:
+                ctx.violation("functional-preserved", "a builder sequence over functional mirror tables produced a table with an index "
+                              "registered twice (or out of range)", {"ops": ops, "mirror": list(m.mirror or [])})
+            for i, k in enumerate(mirrors):
+                if k is not None and (k == i or not (0 <= k < len(m.maps)) or mirrors[k] != i):
+                    ctx.violation("mirror-symmetric", "get_mirror is not a symmetric pairing on a functional table",
+                                  {"ops": ops, "mirror": list(m.mirror or []), "index": i, "partner": k})
+                    break
+            last = ops[-1]
+            if final == "invertTwice":
+                # inversion is an involution up to the bounds: inverting twice maps like the original read as a whole
+                whole = apply_ops(ops[:-2]).slice(0)
+                if _observe(whole, 0, n) != obs:
+                    ctx.violation("invert-involutive", "a mapping inverted twice does not map like the mapping read as a whole",
+                                  {"ops": ops})
+            if last["k"] in ("appendMapping", "appendMappingInverted", "appendMap"):
+                recv = apply_ops(ops[:-1])
+                if True:
+                    if last["k"] == "appendMap":
+                        tail = Mapping([StepMap(list(last["m"][0]), last["m"][1])])
+                    else:
+                        oth = _mapping_from_json(last["mapping"])
+                        tail = oth.invert() if last["k"] == "appendMappingInverted" else oth.slice(0)
+                    if recv.from_ <= len(recv.maps):
+                        head = recv.slice(recv.from_)
+                    else:
+                        # the receiver's from_ lies beyond its last map: nothing of the receiver, the appended part read from from_ - len
+                        head = Mapping()
+                        tail = tail.slice(recv.from_ - len(recv.maps))
+                        ctx.count("algebra_late_start")
+                    if len(tail.maps) > 0:
+                        for ai, assoc in enumerate((-1, 1)):
+                            for p in range(n):
+                                exp = _then(head, tail, p, assoc)
+                                ctx.count("algebra_composition_checks")
+                                if obs[ai][p][1] != exp or obs[ai][p][0] != (exp[0] if exp is not None else None):
+                                    ctx.violation("append-composition", "an appended mapping does not map like the receiver (from its from_ to its "
+                                                  "last map) followed by the (inverted) appended mapping, deletion flags OR-ed",
+                                                  {"ops": ops, "pos": p, "assoc": assoc, "got": obs[ai][p], "expected": exp})
+                                    break
+                    elif _mapping_json(m) != _mapping_json(recv):
+                        ctx.violation("append-empty", "appending a mapping without maps changed the receiver", {"ops": ops})
+        reqs.append({"op": "mappingAlg", "ops": ops, "lo": 0, "n": n})
+        metas.append(("mappingAlg", None, None, {"mapping": _mapping_json(m), "functional": functional, "mirrors": mirrors,
+                                                 "left": obs[0], "right": obs[1]}))
+
+
 def run(ctx):
     core.lean_phase(ctx)
     rng = ctx.rng
@@ -498,6 +730,7 @@ def run(ctx):
     for _ in range(ctx.budget(300, 5000)):
         check_map(ctx, random_map(rng), rng.random() < 0.5, reqs, metas)
     check_mappings(ctx, rng, reqs, metas, ctx.budget(150, 3000))
+    check_algebra(ctx, rng, reqs, metas, ctx.budget(150, 3000))
     # correspondence
     if reqs:
         outs = ctx.driver.run(reqs)
